@@ -15,6 +15,8 @@ func init() {
 	register("C01", "R3", 11, "hop-by-hop table: the nine names of the specification (canonical spelling) are in the table, Connection-nominated names are deleted first (read from every Connection line, split on commas, canonicalised) and the fixed list afterwards", c01r3)
 	register("C01", "R4", 10, "conditional re-adds and fills: Connection/Upgrade are re-added only for an upgrade request with the value read before the modifiers ran; each X-Forwarded-{Proto,Host,Url} is filled only when that very field is absent, from the scheme, Host and URL; X-Forwarded-For gets the client address appended; User-Agent is set only when absent and to the empty string", c01r4)
 	register("C01", "R5", 2, "append-not-replace for list fields: Via and X-Forwarded-For are rebuilt from every existing field line", c18r2)
+	register("C01", "R8", 3, "the client's Authorization is forwarded as sent: site credentials are attached only when the request carries no Authorization field at all (any scheme - Bearer, Digest, Negotiate, malformed Basic - counts as the client's own)", c06r3)
+	register("C01", "R9", 15, "the request URL is read-only for everything that is merely consulted about it: no module function writes a field through a *url.URL it received as an argument (route selection, PAC evaluation, credential lookup and logging all get the live req.URL, whose path and query go on the wire afterwards)", c01r9)
 	register("C01", "R7", 2, "message boundary on keep-alive connections: once a request was read, its body is closed (net/http then discards what was not consumed) on every exit of the exchange - also when the request is refused before it is forwarded - so the next request on the connection is parsed from a message boundary", bodyClosedOnEveryExit)
 	register("C01", "R6", 2, "scheme fix-up: an empty scheme is filled from X-Forwarded-Proto, else https iff the session is TLS, else http; http is upgraded to https only inside a TLS session and when AllowHTTP is off; forwarder switches AllowHTTP on", c01r6)
 }
@@ -498,4 +500,39 @@ func bodyClosedOnEveryExit(r *R) {
 		}
 	})
 	r.check(okH, "proxyHandler.ServeHTTP#body-closed", sh.Pos(), "handler mode closes the outgoing request body", "handler mode no longer closes the request body")
+}
+
+func c01r9(r *R) {
+	for _, fn := range r.modFuncs() {
+		nm := fname(fn)
+		if strings.HasPrefix(nm, "e2e/") || strings.Contains(nm, "utils/") || strings.HasPrefix(nm, "cmd/") || strings.Contains(nm, "/testing.") || strings.Contains(nm, "martiantest") {
+			continue
+		}
+		var urlParams []*ssa.Parameter
+		for _, p := range fn.Params {
+			if typeStr(p.Type()) == "*net/url.URL" {
+				urlParams = append(urlParams, p)
+			}
+		}
+		if len(urlParams) == 0 {
+			continue
+		}
+		var writes []string
+		eachInstr(fn, func(ins ssa.Instruction) {
+			st, ok := ins.(*ssa.Store)
+			if !ok {
+				return
+			}
+			fa, ok := st.Addr.(*ssa.FieldAddr)
+			if !ok || typeStr(fa.X.Type()) != "*net/url.URL" {
+				return
+			}
+			for _, p := range urlParams {
+				if backward(fa.X, func(v ssa.Value) bool { return v == p }) {
+					writes = append(writes, fmt.Sprintf("%s.%s at %s", p.Name(), fieldName(fa.X.Type(), fa.Field), r.rel(st.Pos())))
+				}
+			}
+		})
+		r.check(len(writes) == 0, nm+"#url-argument-read-only", fn.Pos(), "reads its URL argument only", "writes through the URL it was given ("+strings.Join(writes, ", ")+"): callers pass the live request URL, the change goes on the wire")
+	}
 }
